@@ -47,6 +47,7 @@ def gen_config(fastmath: bool = False) -> proggen.Config:
     c.cf_extras = True
     c.observe_all = True
     c.float_extremes = True
+    c.twin_consts = True
     return c
 
 
